@@ -203,6 +203,18 @@ def oracle_loader_fsc_variants(ck, rng, fscf):
             fails.append("converter mask and the same mask given as an array give different FSC")
         # (b)
         grp = ld.groupby("g")
+        # with a soft-edged mask given as an array: every split set is masked exactly once
+        soft = np.clip(msk, 0.05, 1.0).astype(np.float32) if float(msk.max() - msk.min()) > 1e-3 else \
+            np.clip(rng.random((8, 8, 8)), 0.05, 1.0).astype(np.float32)
+        nset_g = max(nset, 2)
+        gfm = grp.fsc(mask=soft, seed=seed, n_set=nset_g, dfreq=dfq)
+        ghm = grp.average_split(n_set=nset_g, seed=seed)
+        for key, _sub in grp:
+            hm_ = np.asarray(ghm[key])
+            for s_ in range(nset_g):
+                fq, f = fscf(hm_[s_, 0] * soft, hm_[s_, 1] * soft, dfq)
+                if not np.allclose(gfm[key][f"FSC-{s_}"].to_numpy(), f, atol=1e-4, equal_nan=True):
+                    fails.append(f"group FSC with a soft mask: column FSC-{s_} is not the FSC of the masked half maps of set {s_}")
         gf = grp.fsc(seed=seed, n_set=nset, dfreq=dfq)
         gh = grp.average_split(n_set=nset, seed=seed)
         for key, sub in grp:
